@@ -782,7 +782,13 @@ def stepTask (c : Ctx) (s : St) : Option Out :=
         | .oneofWait d head cand rest sub :: below, _ => some (oneofWake c s [] d head cand rest sub below)
         | .recStart d n r :: below, _ => some (recStart c s [] d n r below)
         | .recIterRet d n start g k :: below, .ret v =>
-          if hasError s g then retTo c s [] below .none
+          if hasError s g then
+            -- (fix: the destination still asks for another iteration that will not come: it gets the error of its
+            -- dependency — errors are results only inside a one-of scope — and its waiters are woken)
+            let s := if v.isRecur then
+                notifyAll (notify (s.setRes n (.exc (subgraphError c.P s g))) (.node n)) ((c.P.g.desc1 n).map Key.node)
+              else s
+            retTo c s [] below .none
           else if !v.isRecur then recFinish c s [] n start below
           else some (recIter c s [] d n start g (k + 1) v below)
         | .recDfltRet _ n start :: below, .ret _ => some (recFinish c s [] n start below)
